@@ -249,10 +249,11 @@ def recons() -> list[Entry]:
     # ---- IterDualNet: one normalised U-Net only
     ikw = dict(image_unet_num_filters=2, image_unet_num_pool_layers=2, kspace_unet_num_filters=2, kspace_unet_num_pool_layers=2)
     E.append(Entry("IterDualNet/image-normunet", "iterdualnet", "recon",
-                   lambda: IterDualNet(fwd, bwd, num_iter=2, image_normunet=True, **ikw), "image", Z._c_kms, min_hw=nu, tags=("unet",)))
+                   lambda: IterDualNet(fwd, bwd, num_iter=2, image_normunet=True, **ikw), "image", Z._c_kms, min_hw=both(nu, u2),
+                   tags=("unet",)))
     E.append(Entry("IterDualNet/kspace-normunet-shared-image", "iterdualnet", "recon",
                    lambda: IterDualNet(fwd, bwd, num_iter=2, kspace_normunet=True, image_no_parameter_sharing=False, **ikw), "image",
-                   Z._c_kms, min_hw=nu, tags=("unet",), tol=1e-4))
+                   Z._c_kms, min_hw=both(nu, u2), tags=("unet",), tol=1e-4))
     # ---- MultiCoil (both ways of handling the coil axis) and a hand-assembled CrossDomainNetwork
     E.append(Entry("MultiCoil/per-coil", "crossdomain", "recon", lambda: MultiCoil(Conv2d(2, 2, 4, n_convs=2)), "kspace", _c_multicoil_per_coil,
                    coil_invariant=False, tags=("conv", "multicoil")))
@@ -389,6 +390,21 @@ def engines() -> list[Entry]:
             return IterationWrap(eng, model, **extra)
         add(cls.__name__, build, out="mag")
     return E
+
+
+def schedule(e: Entry, m: nn.Module):
+    """`zoo_common.schedule` + the learned initialiser of vSHARP (called once on the permuted SENSE image, before the ADMM steps)"""
+    sch = Z.schedule(e, m)
+    if sch is not None and e.name.split("/")[0] in ("VSharpNet", "VSharpNet3D"):
+        mods, pre, body, iters = sch
+        return [m.initializer] + list(mods), [(Z.IMAGE, 2, 2)] + list(pre), body, iters
+    return sch
+
+
+def sched_term(e: Entry, m: nn.Module):
+    if e.name.split("/")[0] in ("VSharpNet", "VSharpNet3D"):
+        return "Shapes.schedVSharp", m.num_steps
+    return Z.sched_term(e, m)
 
 
 def extra_zoo(thorough: bool = True) -> list[Entry]:
